@@ -60,6 +60,19 @@ func richItem(rt *rapid.T, o gen.AVOpts) model.Item {
 			it[hn] = model.Str(gen.Str(o.ASCII).Draw(rt, "hashNamed"))
 		}
 	}
+	// a document four and five levels deep (paths of four and more segments)
+	if rapid.IntRange(0, 3).Draw(rt, "has_deep") == 2 {
+		leaf := func(l string) model.AV { return model.Str(gen.Str(o.ASCII).Draw(rt, l)) }
+		it["deep"] = model.Map(map[string]model.AV{
+			"k": leaf("deepK"),
+			"a": model.Map(map[string]model.AV{
+				"k": leaf("deepAK"),
+				"b": model.Map(map[string]model.AV{"k": leaf("deepABK"), "c": model.Map(map[string]model.AV{"k": leaf("deepABCK"), "ss": model.StrSet("x", "y")})}),
+				"l": model.List(model.Map(map[string]model.AV{"k": leaf("deepALK"), "n": model.Num("1")}), leaf("deepAL1")),
+			}),
+			"b": model.Map(map[string]model.AV{"k": leaf("deepBK"), "c": model.Map(map[string]model.AV{"k": leaf("deepBCK")})}),
+		})
+	}
 	add("s", func() model.AV { return model.Str(gen.Str(o.ASCII).Draw(rt, "s")) })
 	add("s2", func() model.AV { return model.Str(gen.Str(o.ASCII).Draw(rt, "s2")) })
 	add("n", func() model.AV { return model.Num(gen.Numeral(rt, o, "n")) })
@@ -340,7 +353,7 @@ func c06API(c exprCase, want model.Outcome) *failure {
 	return nil
 }
 
-const ruleC06 = "rapid: (condition AST, item, bindings) - ASTs up to depth 6 over comparators, BETWEEN, IN, AND/OR/NOT, parentheses, document paths (nested members, list elements, elements past the end, missing parents), #name/:value placeholders and the six functions; operands drawn from an item holding (most of) the ten types so that ~half of the atoms are well typed and present, the rest type mismatches, absences, NULL-typed attributes; rendered with random extra whitespace. In an eighth of the cases a twin that differs only in the letter case of one identifier is evaluated first on the same interpreter instance. Oracle: the reference evaluator's outcome set vs interpreter.Language.Match called directly; plus purity of item and bindings, commutation of AND/OR operands, and for a tenth of the cases the same condition as Scan filter and PutItem condition through both SDK clients. Non-trivial = >= 2 atoms and a singleton model outcome that flips when the item is replaced by the empty item; distinct = hash of (expression, item, bindings)."
+const ruleC06 = "rapid: (condition AST, item, bindings) - ASTs up to depth 6 over comparators, BETWEEN, IN, AND/OR/NOT, parentheses, document paths (nested members, list elements, elements past the end, missing parents), #name/:value placeholders and the six functions; operands drawn from an item holding (most of) the ten types so that ~half of the atoms are well typed and present, the rest type mismatches, absences, NULL-typed attributes; rendered with random extra whitespace. In an eighth of the cases a twin that differs only in the letter case of one identifier, in another eighth the same text with values of the same shape and other contents, is evaluated first on the same interpreter instance. Oracle: the reference evaluator's outcome set vs interpreter.Language.Match called directly; plus purity of item and bindings, commutation of AND/OR operands, and for a tenth of the cases the same condition as Scan filter and PutItem condition through both SDK clients. Non-trivial = >= 2 atoms and a singleton model outcome that flips when the item is replaced by the empty item; distinct = hash of (expression, item, bindings)."
 
 // TestC06 decides property C06.
 func TestC06(t *testing.T) {
@@ -370,10 +383,17 @@ func propC06(rt *rapid.T) {
 		if len(ec.Names) == 0 {
 			ec.Names = nil
 		}
-		if rapid.IntRange(0, 7).Draw(rt, "caseTwinFirst") == 0 {
+		switch rapid.IntRange(0, 15).Draw(rt, "twinFirst") {
+		case 3, 4:
 			if tw, n2, v2, ok := condCaseTwin(rt, e, ec.Names, ec.Values); ok {
 				ec.Warm, ec.WarmNames, ec.WarmValues = tw, n2, v2
 				st.Class("case-twin-evaluated-first")
+			}
+		case 9, 10:
+			if len(ec.Values) > 0 {
+				// the same text first with values of the same shape and other contents
+				ec.Warm, ec.WarmNames, ec.WarmValues = ec.Expr, ec.Names, valueTwin(rt, ec.Values, o)
+				st.Class("value-twin-evaluated-first")
 			}
 		}
 		pending("C06", "c06", ec)
